@@ -17,9 +17,10 @@ pub fn run(args: &[String]) {
     let mut shapes: Vec<(u64, u64)> = Vec::new();
     for b in 1..=maxb { for s in 1..=4 { shapes.push((b, s)); } }
     // wide dilutions: the diluted values 2^(spacing*i) leave the machine word long before they leave the field
-    shapes.extend([(2, 40), (3, 32), (3, 40), (4, 21), (5, 16), (2, 64), (1, 64), (2, 70), (8, 16), (3, 100)]);
-    if full16 { shapes.push((16, 4)); }
-    for (k, (b, s)) in shapes.iter().cycle().take((nd as usize).max(shapes.len())).enumerate() {
+    let mut calls: Vec<(u64, u64)> = shapes.iter().cycle().take((nd as usize).max(shapes.len())).cloned().collect();
+    for special in [(2u64, 40u64), (3, 32), (3, 40), (4, 21), (5, 16), (2, 64), (1, 64), (2, 70), (8, 16), (3, 100)] { calls.push(special); calls.push(special); }
+    if full16 { calls.push((16, 4)); calls.push((16, 4)); }
+    for (k, (b, s)) in calls.iter().enumerate() {
         let (z, alpha) = match k % 5 { 0 => (Felt::ZERO, rng.felt()), 1 => (rng.felt(), Felt::ZERO), 2 => (Felt::ONE, Felt::ZERO - Felt::ONE), _ => (rng.felt(), rng.felt()) };
         match guarded(|| get_diluted_product(Felt::from(*b), Felt::from(*s), z, alpha)) {
             Ok(out) => t.line(&json!({"ev":"diluted","n_bits":b,"spacing":s,"z":hex(&z),"alpha":hex(&alpha),"out":hex(&out)})),
